@@ -118,3 +118,10 @@ func vClockWindow(sec int) {}
 
 // vFSWriteFaults: number of injected write faults so far (engine only).
 func vFSWriteFaults() int { return 0 }
+
+// vDrain lets all other goroutines run until none of them can make progress (engine); natively a short sleep.
+func vDrain() { time.Sleep(50 * time.Millisecond) }
+
+// vClockAdvance moves the engine's concrete clock forward; vClockUnix reads it (engine only).
+func vClockAdvance(sec int) {}
+func vClockUnix() int64     { return time.Now().Unix() }
